@@ -121,6 +121,9 @@ def transpile_token(
                 temp += '\\"'
             elif char == "\n":
                 temp += "\\n"
+            elif char == "\r":
+                # a raw carriage return ends the line for Python too
+                temp += "\\r"
             else:
                 temp += char
         return indent_str(f'stack.append("{temp}")', indent)
